@@ -317,8 +317,11 @@ fn history<K: HKey>(s: &mut Sess, rng: &mut Rng, w: &Weights, prop: &'static str
     // C18/C06 "all contents incl. those larger than I/O buffers": thresholds hide at powers of two, so
     // the first 27 histories of a run start with a put of exactly 2^k-1, 2^k, 2^k+1 bytes for
     // k = 13 … 21 (8 KiB … 2 MiB), alternately as one write call and in 64 KiB pieces — swept, not drawn
-    if matches!(prop, "C18" | "C06") && case < 27 {
-        let (k, delta) = (13 + case / 3, case % 3);
+    // (the other properties' histories: 128 KiB and 1 MiB only — recorded sizes and counters depend
+    // on the length of a write call too)
+    let swept = if matches!(prop, "C18" | "C06") { case < 27 } else { case < 6 && prop != "C13" };
+    if swept {
+        let (k, delta) = if matches!(prop, "C18" | "C06") { (13 + case / 3, case % 3) } else { ([17, 20][(case / 3) as usize], case % 3) };
         let len = (1u64 << k) + delta - 1;
         let spec = if case % 2 == 0 { format!("~1:{len}") } else {
             let mut v = Vec::new(); let mut left = len;
@@ -332,7 +335,66 @@ fn history<K: HKey>(s: &mut Sess, rng: &mut Rng, w: &Weights, prop: &'static str
         c.s.out.count("put.size-sweep-2^k");
         c.observe(true);
     }
-    let len = c.rng.range(w.len_lo, w.len_hi);
+    // Count thresholds are invisible to histories over five keys: once in a while a history over
+    // MANY keys (a range removal whose record outgrows the 8 KiB write buffer, hundreds of versions,
+    // two- and three-digit segment ids with n = 3 / 64)
+    if case % 20 == 7 && prop != "C13" {
+        let target = c.rng.range(300, 700) as usize;
+        let mut more: BTreeSet<Vec<u8>> = c.keys.iter().cloned().collect();
+        let mut tries = 0;
+        while more.len() < target && tries < 20_000 {
+            let mut k = gen_key(K::KIND, c.rng, 4000);
+            // the variable-length kinds have small pools: extend them
+            if K::KIND == "bytes" { k.extend_from_slice(&(tries as u16).to_be_bytes()); }
+            if K::KIND == "string" { k.extend_from_slice(format!("-{tries}").as_bytes()); }
+            more.insert(k);
+            tries += 1;
+        }
+        c.keys = more.into_iter().collect();
+        let all = c.keys.clone();
+        for (i, kb) in all.iter().enumerate() {
+            let content = vec![b'p', (i % 7) as u8];
+            c.expect(&format!("put {} ={}", hx(kb), hx(&content)), "ok");
+            c.map.insert(K::dec(kb).unwrap(), content);
+            if i % 200 == 199 { c.observe(true); }
+        }
+        c.s.out.count("history.many-keys");
+        c.observe(true);
+    }
+    // Size thresholds of RECORDS hide behind key lengths (a put's record is its key + 45 bytes): a
+    // swept, not drawn, list of key lengths around the write buffer (8 KiB), 64 KiB, 128 KiB and —
+    // late in long runs only — 1 MiB; the key joins the pool, so later removes and range removals
+    // log it too; a restart follows at once (what was acknowledged must be there afterwards)
+    if case % 20 == 13 && matches!(K::KIND, "bytes" | "string") && prop != "C13" {
+        const LENS: [usize; 11] = [8103, 65_492, 1_048_532, 65_491, 8102, 131_027, 65_490, 8104, 65_493, 1_048_531, 1_048_533];
+        let n = LENS[(case / 20) as usize % LENS.len()];
+        let kb = vec![b'k'; n];
+        let huge = n > 200_000; // its hex form is megabytes per line: no listings while it is there
+        c.expect(&format!("put {} =4c", hx(&kb)), "ok");
+        let k2 = c.key();
+        c.expect(&format!("put {} =4d", hx(&k2)), "ok");
+        c.map.insert(K::dec(&k2).unwrap(), b"M".to_vec());
+        if !huge { c.keys.push(kb.clone()); c.map.insert(K::dec(&kb).unwrap(), b"L".to_vec()); c.observe(true); }
+        c.expect("close", "ok");
+        let r = c.op("open");
+        if !r.starts_with("ok orphans=0 missing=0 corrupted=0 staging=0") { c.fail(format!("C02: reopen after a put with a {n}-byte key reported `{r}`")); }
+        if huge {
+            // judged by point reads: both puts were acknowledged before the restart
+            let l = format!("found 1 {}", b3(b"L"));
+            c.expect(&format!("get {}", hx(&kb)), &l);
+            let m = format!("found 1 {}", b3(b"M"));
+            c.expect(&format!("get {}", hx(&k2)), &m);
+            // … and the removal of the long key (a second long record) as well
+            c.expect(&format!("remove {}", hx(&kb)), "true");
+            c.expect("close", "ok");
+            let r = c.op("open");
+            if !r.starts_with("ok orphans=0 missing=0 corrupted=0 staging=0") { c.fail(format!("C02: reopen after removing a {n}-byte key reported `{r}`")); }
+            c.expect(&format!("get {}", hx(&kb)), "absent");
+        }
+        c.observe(true);
+        c.s.out.count(if huge { "history.long-key-1MiB" } else { "history.long-key" });
+    }
+    let len = if case % 20 == 13 && matches!(K::KIND, "bytes" | "string") { c.rng.range(3, 8) } else { c.rng.range(w.len_lo, w.len_hi) };
     for i in 0..len {
         c.step(w);
         c.observe(true);
@@ -360,8 +422,8 @@ fn history<K: HKey>(s: &mut Sess, rng: &mut Rng, w: &Weights, prop: &'static str
 
 pub fn histories(s: &mut Sess, rng: &mut Rng, n: u64, w: &Weights, prop: &'static str) {
     for i in 0..n {
-        let kind = KINDS[rng.below(KINDS.len() as u64) as usize];
-        let n_wal = *rng.pick(&[1u64, 2, 3, 5, 10_000]);
+        let kind = if i % 20 == 13 { KINDS[(i / 20 % 2) as usize] } else { KINDS[rng.below(KINDS.len() as u64) as usize] };
+        let n_wal = if i % 20 == 7 { *rng.pick(&[3u64, 64, 10_000]) } else if i % 20 == 13 { 10_000 } else { *rng.pick(&[1u64, 2, 3, 5, 10_000]) };
         let sync = i % 4 != 3;
         s.out.count(&format!("cfg.n={n_wal}"));
         s.out.count(&format!("cfg.kind={kind}"));
